@@ -304,7 +304,17 @@ func (c *renderCtx) check0(cfg simrt.Config) ([]mismatch, simrt.Stats, string) {
 	wl := c.wl
 	var out, errs string
 	input := proto.Clone(c.pm).(*openfgav1.AuthorizationModel)
+	if wl.Model.aliased() {
+		// the value of a model does not change when some of its messages are one
+		// Go object (an operand that IS its sibling, a rewrite that IS another
+		// relation's): the canonical text comes from a clone (no sharing), this
+		// one from a freshly built object with the sharing
+		input = wl.Model.toProto()
+	}
 	simrt.Begin(cfg)
+	if wl.Model.aliased() {
+		simrt.CountFault("input.aliased_messages")
+	}
 	switch wl.Variant {
 	case "perm-types":
 		input = permTypes(wl.Model, wl.TypePerm).toProto()
@@ -489,6 +499,9 @@ func genRenderModel(r *rng) *Model {
 	}
 	if r.chance(65) {
 		attributeModel(r, m)
+	}
+	if r.chance(5) {
+		injectAliasingOpt(r, m, true)
 	}
 	return m
 }
